@@ -635,6 +635,10 @@ package plush
 
 //@ func (h HelperContext) BlockWith
 //@ ensures rendered: err == nil ==> trusted(result)
+// the block is evaluated AND its value is turned into text in the scope handed in (the text form of a
+// value depends on the scope, e.g. TIME_FORMAT): "receives exactly what its block renders to"
+//@ assert blockscope: h.compiler.ctx == hc && callarg1 == h.block before evalBlockStatement#1
+//@ assert writescope: h.compiler.ctx == hc && calls(evalBlockStatement) == 1 before write#1
 //@ requires hc: !(is(hc, "*Context") && pay(hc) == 0)
 //@ requires comp: h.compiler != nil && cctx(h.compiler)
 //@ ensures restored: h.compiler.ctx == old(h.compiler.ctx) && (h.compiler.curStmt == nil || pay(h.compiler.curStmt) != 0) && h.compiler.fnDepth == old(h.compiler.fnDepth)
